@@ -589,6 +589,19 @@ func (q *qgen) clauseFrom(t *triple.Triple, vm map[string]string, level int) str
 		ta, _ := op.TimeAnchor()
 		c.OID, c.OAnchorBinding, c.OTemporal = string(op.ID()), name("t:"+instantNanos(*ta)), true
 		fmt.Fprintf(&b, `"%s"@[%s]`, op.ID(), c.OAnchorBinding)
+	} else if op, err := o.Predicate(); err == nil && op.Type() == predicate.Temporal && len(timeBindings(vm)) > 0 && r.chance(1, 2) {
+		// an object predicate bounded by time bindings of earlier clauses: "id"@[?lo,?hi] in object position
+		tbs := timeBindings(vm)
+		lo, hi := "", ""
+		if r.chance(2, 3) {
+			lo = tbs[r.intn(len(tbs))].name
+		}
+		if lo == "" || r.chance(1, 2) {
+			hi = tbs[r.intn(len(tbs))].name
+		}
+		c.OID, c.OLowerBoundAlias, c.OUpperBoundAlias, c.OTemporal = string(op.ID()), lo, hi, true
+		fmt.Fprintf(&b, `"%s"@[%s,%s]`, op.ID(), lo, hi)
+		q.hist["object-bounded-by-bindings"]++
 	} else {
 		key := "o:" + o.String()
 		if n, err := o.Node(); err == nil {
